@@ -1,6 +1,6 @@
 CONFIG = dict(
     coqfiles=["Props/C03.v"],
-    n_quick=320, n_thorough=24000, workers_quick=8,
+    n_quick=320, n_thorough=100000, workers_quick=8,
     rule="persistent local store wired as new_blob_access.go (block size 32-64, sector 1/4/16, old 1-2, current 1-2, new 1-3, spare 1-2, immutable or mutable growth policy, flat or hierarchical, "
          "raw (70%) or CAS-validating read factory, in-memory or directory-backed state store, intervals 0/4/10, 60% with injected sync/state-write failures) x 2-3 (thorough -4) incarnations of "
          "3-30 scheduled steps over {upload start/chunk/end through a gated source in 4 slots, Get, FindMissing, DataSyncer / state-write completion ok/fail, clock, timer expiry, cancel, "
@@ -16,5 +16,6 @@ CONFIG = dict(
               "process crash = all in-memory objects dropped at a quiescent point, the data device, the index device and the state file kept as they are (no write is lost; lost writes are C02)",
               "hash seeds are canonicalised by order of first appearance; seeds are assumed fresh (a record whose epoch is not in the restored state does not validate)",
               "the ghost history of Shutdown.v (acks, cohorts of syncs and state writes) is defined from the states before and after a step; that it never influences a step is a theorem (grun_is_run)",
-              "NewOldCurrentNewLocationBlobMap's restoration loops are modelled by ocn_new; they are tied to the code only through the monitor's eviction rule (mutation 'restored blocks not promoted' is caught)"],
+              "NewOldCurrentNewLocationBlobMap's restoration loops are modelled by ocn_new; tied to the code at every restart by comparing the number of restored blocks that the real map "
+              "reports as old (needsRefresh) with l_old (ocn_new ...), and through the monitor's eviction rule; totalBlocksToBeReleased itself is not observable"],
 )
